@@ -53,27 +53,34 @@ fn roots(t: &mut Toks, cx: &mut Ctx) -> String {
                     // below their rounding uncertainty, so sqrt(-27 a^2 dis) and everything derived from it is rounding noise
                     for f in cx.fails.iter_mut() { f.push_str(" [closed-form cubic: the discriminant cancelled (|dis| below the rounding uncertainty 8 eps sum|terms| of its evaluation): Cardano's formula has no information left on this input]"); }
                 }
-                if !cx.fails.is_empty() && n > 3 {
-                    // classify: does the reference copy of the pinned Laguerre + deflation algorithm fail on this input too?
-                    let (rr, cyc) = ref_poly_solve(&coeffs, refine);
-                    let rbe = rr.iter().map(|w| backward_error(&coeffs, *w)).fold(0.0, f64::max);
-                    if cyc || rbe > (if refine { 1e-12 } else { 1e-7 }) {
-                        let why = if cyc { "a Laguerre iteration from the fixed start x = 0 uses up its 79 steps without converging" } else if !refine { "deflation without polishing loses accuracy / accepts a far-away point" } else { "the iteration accepts a point that is not a root" };
-                        for f in cx.fails.iter_mut() { f.push_str(&format!(" [pinned Laguerre+deflation algorithm fails on this input: {}; reference backward error {:e}]", why, rbe)); }
-                    }
-                }
                 // one-to-one matching with well-separated known roots
-                if !known.is_empty() && known.len() == z.size() && z.vec.iter().all(|w| w.real.is_finite() && w.imag.is_finite()) {
+                let match_fails = |vals: &[Cmplx]| -> Vec<String> {
+                    let mut out = Vec::new();
+                    if known.is_empty() || known.len() != vals.len() || !vals.iter().all(|w| w.real.is_finite() && w.imag.is_finite()) { return out; }
                     let mut used = vec![false; n];
                     for kr in &known {
                         let mut best = None; let mut bd = f64::INFINITY;
-                        for k in 0..n { if !used[k] { let d = cabs(z[k] - *kr); if d < bd { bd = d; best = Some(k); } } }
+                        for k in 0..n { if !used[k] { let d = cabs(vals[k] - *kr); if d < bd { bd = d; best = Some(k); } } }
                         // tolerance: 1e-6 (1 + |r|), widened by the conditioning of the root: a coefficient perturbation of relative size
                         // 1e3 eps moves a simple root by about 1e3 eps sum|a_k||r|^k / |p'(r)| (closely spaced roots are ill-conditioned)
                         let (mut dp, mut sc) = (Cmplx::new(0.0, 0.0), 0.0f64); let ar = cabs(*kr);
                         for j in (1..=n).rev() { dp = dp * *kr + coeffs[j] * (j as f64); } for j in (0..=n).rev() { sc = sc * ar + cabs(coeffs[j]); }
                         let tolr = 1e-6 * (1.0 + ar) + 1e3 * f64::EPSILON * sc / cabs(dp).max(1e-300);
-                        if let Some(k) = best { used[k] = true; if !(bd <= tolr) { cx.fail(format!("no returned value within {:e} of the known root ({:e},{:e}) (nearest unused at distance {:e})", tolr, kr.real, kr.imag, bd)); } }
+                        if let Some(k) = best { used[k] = true; if !(bd <= tolr) { out.push(format!("no returned value within {:e} of the known root ({:e},{:e}) (nearest unused at distance {:e})", tolr, kr.real, kr.imag, bd)); } }
+                    }
+                    out
+                };
+                for m in match_fails(&z.vec) { cx.fail(m); }
+                if !cx.fails.is_empty() && n > 3 {
+                    // classify: does the reference copy of the pinned Laguerre + deflation algorithm fail on this input too
+                    // (a Laguerre call cycles, a returned value is not a root, or — every value being a root — one root is
+                    // returned twice and another is missing)?
+                    let (rr, cyc) = ref_poly_solve(&coeffs, refine);
+                    let rbe = rr.iter().map(|w| backward_error(&coeffs, *w)).fold(0.0, f64::max);
+                    let rdup = !match_fails(&rr).is_empty();
+                    if cyc || rbe > (if refine { 1e-12 } else { 1e-7 }) || rdup {
+                        let why = if cyc { "a Laguerre iteration from the fixed start x = 0 uses up its 79 steps without converging" } else if rbe > (if refine { 1e-12 } else { 1e-7 }) { if !refine { "deflation without polishing loses accuracy / accepts a far-away point" } else { "the iteration accepts a point that is not a root" } } else { "deflation hands two starting values to the same root: a root is returned twice and another one is lost" };
+                        for f in cx.fails.iter_mut() { f.push_str(&format!(" [pinned Laguerre+deflation algorithm fails on this input: {}; reference backward error {:e}]", why, rbe)); }
                     }
                 }
             }
@@ -98,6 +105,7 @@ fn ref_laguer(a: &[Cmplx], x: &mut Cmplx) -> bool {
         let sq = ((h * (m as f64) - g2) * ((m - 1) as f64)).sqrt();
         let mut gp = g + sq; let gm = g - sq;
         let (abp, abm) = (cabs_ref(gp), cabs_ref(gm));
+        if !(abp.is_finite() && abm.is_finite()) { return true; }   // (repair D13: |p'/p|^2 overflowed, a root is within 1e-76)
         if abp < abm { gp = gm; }
         let dx = if abp.max(abm) > 0.0 { Cmplx::new(m as f64, 0.0) / gp } else { Cmplx::polar(1.0 + abx, iter as f64) };
         let x1 = *x - dx;
@@ -176,6 +184,54 @@ fn real_poly_from(a: f64, reals: &[f64], pairs: &[(f64, f64)]) -> Vec<Cmplx> {
     p.into_iter().map(|x| Cmplx::new(x, 0.0)).collect()
 }
 
+/// Independent root finder for the GENERATOR (Aberth–Ehrlich iteration in plain (f64, f64) arithmetic, nothing of the crate):
+/// returns the roots only when every one of them is verified — backward error below 1e-13 — and they are pairwise well
+/// separated (distance at least 2% of 1 + the larger modulus): then the one-to-one claim of the property applies and the
+/// executor matches the returned values against them. `None` otherwise (no claim is derived from a failed computation).
+fn aberth_separated(c: &[(f64, f64)]) -> Option<Vec<(f64, f64)>> {
+    type C = (f64, f64);
+    let add = |a: C, b: C| (a.0 + b.0, a.1 + b.1); let sub = |a: C, b: C| (a.0 - b.0, a.1 - b.1);
+    let mul = |a: C, b: C| (a.0 * b.0 - a.1 * b.1, a.0 * b.1 + a.1 * b.0);
+    let div = |a: C, b: C| { let (ar, ai, br, bi) = (a.0, a.1, b.0, b.1);
+        if br.abs() >= bi.abs() { let t = bi / br; let d = br + bi * t; ((ar + ai * t) / d, (ai - ar * t) / d) } else { let t = br / bi; let d = br * t + bi; ((ar * t + ai) / d, (ai * t - ar) / d) } };
+    let ab = |a: C| a.0.hypot(a.1);
+    let n = c.len().checked_sub(1)?;
+    if n == 0 || ab(c[n]) == 0.0 { return None; }
+    let eval = |z: C| -> (C, C, f64) { let (mut p, mut d, mut s) = (c[n], (0.0, 0.0), ab(c[n])); let az = ab(z);
+        for k in (0..n).rev() { d = add(mul(d, z), p); p = add(mul(p, z), c[k]); s = s * az + ab(c[k]); } (p, d, s) };
+    // start: points on a circle of the Cauchy-type radius, slightly rotated
+    let amax = c[..n].iter().map(|x| ab(*x)).fold(0.0, f64::max); let rad = 1.0 + amax / ab(c[n]);
+    let rad = rad.min(1e8);
+    let mut z: Vec<C> = (0..n).map(|k| { let t = 2.0 * std::f64::consts::PI * (k as f64) / (n as f64) + 0.4; let r = 0.5 * rad.sqrt().max(0.5) * (1.0 + 0.1 * (k as f64) / (n as f64)); (r * t.cos(), r * t.sin()) }).collect();
+    for _ in 0..400 {
+        let mut moved = 0.0f64;
+        for i in 0..n {
+            let (p, d, _) = eval(z[i]);
+            if ab(p) == 0.0 { continue; }
+            let nd = div(p, d);                                   // Newton correction p/p'
+            if !(nd.0.is_finite() && nd.1.is_finite()) { return None; }
+            let mut sum = (0.0, 0.0);
+            for j in 0..n { if j != i { let dz = sub(z[i], z[j]); if ab(dz) == 0.0 { return None; } sum = add(sum, div((1.0, 0.0), dz)); } }
+            let den = sub((1.0, 0.0), mul(nd, sum));
+            let w = div(nd, den);
+            if !(w.0.is_finite() && w.1.is_finite()) { return None; }
+            z[i] = sub(z[i], w); moved = moved.max(ab(w) / (1.0 + ab(z[i])));
+        }
+        if moved < 1e-16 { break; }
+    }
+    for i in 0..n { let (p, _, s) = eval(z[i]); if !(ab(p) <= 1e-13 * s) { return None; } }
+    for i in 0..n { for j in 0..i { if ab(sub(z[i], z[j])) < 0.02 * (1.0 + ab(z[i]).max(ab(z[j]))) { return None; } } }
+    Some(z)
+}
+
+/// verified, well-separated roots of a polynomial whose leading coefficient does not vanish (else no claim)
+fn known_of(c: &[Cmplx]) -> Vec<Cmplx> {
+    let mut cc: Vec<(f64, f64)> = c.iter().map(|z| (z.real, z.imag)).collect();
+    while cc.len() > 1 && cc[cc.len() - 1] == (0.0, 0.0) { return Vec::new(); }
+    let _ = &mut cc;
+    match aberth_separated(&cc) { Some(z) => z.into_iter().map(|(a, b)| Cmplx::new(a, b)).collect(), None => Vec::new() }
+}
+
 pub fn gen(rng: &mut Rng, tier: Tier, out: &mut Vec<String>) {
     let reps = if tier == Tier::Quick { 3 } else { 60 };
     let z0 = Cmplx::new(0.0, 0.0);
@@ -195,13 +251,13 @@ pub fn gen(rng: &mut Rng, tier: Tier, out: &mut Vec<String>) {
     for deg in 1..=12usize { for rep in 0..reps { for refine in 0..2usize {
         // (a) random coefficients, mixed sign / scale (ratio up to 1e6)
         let mut c: Vec<Cmplx> = (0..=deg).map(|_| Cmplx::new(rng.f_general(3.0), 0.0)).collect();
-        emit(out, "f", "random", refine, &c, &[]);
+        emit(out, "f", "random", refine, &c, &known_of(&c));
         // (b) vanishing constant / inner coefficients (roots at zero)
         let kz = 1 + rng.below(deg); for k in 0..kz.min(deg) { if rng.chance(70) || k == 0 { c[k] = z0; } }
-        emit(out, "f", "zero-coeffs", refine, &c, &[]);
+        emit(out, "f", "zero-coeffs", refine, &c, &known_of(&c));
         // (c) complex random coefficients
         let cc: Vec<Cmplx> = (0..=deg).map(|_| Cmplx::new(rng.f_general(2.0), if rng.chance(30) { 0.0 } else { rng.f_general(2.0) })).collect();
-        emit(out, "c", "random", refine, &cc, &[]);
+        emit(out, "c", "random", refine, &cc, &known_of(&cc));
         // (d) well-separated real roots (integers / halves), real coefficients
         let mut pool: Vec<i64> = (-12..=12).collect(); for i in (1..pool.len()).rev() { let j = rng.below(i + 1); pool.swap(i, j); }
         let rs: Vec<Cmplx> = pool[..deg].iter().map(|k| Cmplx::new(*k as f64 / 2.0, 0.0)).collect();
